@@ -93,6 +93,7 @@ type Witness struct {
 	Obs    []string `json:"obs"`
 	Panic  string   `json:"panic,omitempty"`
 	PC     string   `json:"pc,omitempty"`
+	Violating bool  `json:"violating,omitempty"`
 }
 
 type JobResult struct {
@@ -105,6 +106,7 @@ type JobResult struct {
 	Forced     int               `json:"forced"`
 	Asserts    int               `json:"asserts"`
 	TrivialAsserts int           `json:"trivial_asserts"`
+	ByteDecided int              `json:"byteset_decided"`
 	Base       string            `json:"base,omitempty"`
 	Steps      int64             `json:"steps"`
 	Violations []Violation       `json:"violations,omitempty"`
@@ -222,6 +224,7 @@ func (in *Interp) RunJob(job Job) (res JobResult) {
 	}
 	defer s.Close()
 	resetTerms()
+	termVarsMemo = map[int][]*Term{}
 	ex := NewExplorer(s)
 	ex.interp = in.i
 	ex.Params = job.Params
@@ -259,6 +262,7 @@ func (in *Interp) RunJob(job Job) (res JobResult) {
 		res.Forced = ex.TotalForced
 		res.Asserts = ex.TotalAsserts
 		res.TrivialAsserts = ex.TrivialAsserts
+		res.ByteDecided = ex.ByteDecided
 		res.Base = job.Base
 		var fns, exts []string
 		for k := range ex.FnsTouched {
@@ -307,6 +311,11 @@ func (in *Interp) RunJob(job Job) (res JobResult) {
 		keep = 24
 	}
 	classes := map[string]int{}
+	symClasses := map[string]int{}
+	ex.NeedModel = func(c string) bool {
+		symClasses[c]++
+		return symClasses[c] == 1 && len(symClasses) <= keep*4
+	}
 	reached := map[string]bool{}
 	violSeen := map[string]int{}
 	ex.RunAll(func() {
@@ -340,7 +349,7 @@ func (in *Interp) RunJob(job Job) (res JobResult) {
 				cls := obsClass(pr.Obs) + "|" + pr.Panic
 				classes[cls]++
 				if classes[cls] == 1 && len(res.Witnesses) < keep {
-					res.Witnesses = append(res.Witnesses, Witness{Replay: pr.Replay, Obs: pr.Obs, Panic: pr.Panic, PC: pr.PCText})
+					res.Witnesses = append(res.Witnesses, Witness{Replay: pr.Replay, Obs: pr.Obs, Panic: pr.Panic, PC: pr.PCText, Violating: pr.Status == "violation"})
 				}
 			}
 		}
